@@ -59,11 +59,13 @@ TResolveErr ==
   /\ UNCHANGED <<host, idx, tried, order, lastErr, slots, rot, used>>
 
 \* tryDial entered for the address at position E.pos; composed with dial()'s loop step when
-\* the previous address failed with a non-timeout error
+\* the previous address failed with a non-timeout error.  WITHIN one dial the positions are
+\* start, start+1, ... (mod n) whatever other dials to the same host do in between
 TTry ==
   /\ IsEvent("td.try")
-  /\ LET t == IF pc[G] = "try" THEN tried[G] ELSE tried[G] + 1 IN
+  /\ LET t == IF pc[G] \in {"try", "new"} THEN tried[G] ELSE tried[G] + 1 IN
      /\ \/ pc[G] = "try"
+        \/ pc[G] = "new" /\ ResolveOf[host[G]] = "direct"     \* DisableDNSResolution: no td.addrs
         \/ pc[G] = "dialed" /\ lastErr[G] = "refused" /\ t < NAddrs(G)
      /\ E.pos = (idx[G] + t) % NAddrs(G)
      /\ tried' = [tried EXCEPT ![G] = t]
